@@ -21,10 +21,31 @@ CHUNK = 1
 
 def cases(tier, seed):
     n = 48 if tier == "quick" else 640
-    return [{"i": i, "seed": seed, "evals": 400 if tier == "quick" else 900, "xproc": i % 8 == 0} for i in range(n)]
+    # every third history is devoted to ONE family (many live members of it, the same points travelling between them)
+    return [{"i": i, "seed": seed, "evals": 400 if tier == "quick" else 900, "xproc": i % 8 == 0,
+             "focus": FOCUS[(i // 3) % len(FOCUS)] if i % 3 == 0 else None} for i in range(n)]
 
 
-def random_key(rng):
+FOCUS = ["shekel4", "gkls", "grishagin", "hill", "shekel", "rastrigin", "xsquared", "stronginc3"]
+
+
+def random_key(rng, focus=None):
+    if focus == "shekel4":
+        return ("shekel4", int(rng.integers(1, 4)))
+    if focus == "gkls":
+        return ("gkls", 2 + int(rng.integers(0, 2)), int(rng.integers(1, 101)))
+    if focus == "grishagin":
+        return ("grishagin", int(rng.integers(1, 101)))
+    if focus == "hill":
+        return ("hill", int(rng.integers(0, 1000)))
+    if focus == "shekel":
+        return ("shekel", int(rng.integers(0, 1000)))
+    if focus == "rastrigin":
+        return ("rastrigin", int(rng.integers(1, 4)))
+    if focus == "xsquared":
+        return ("xsquared", int(rng.integers(1, 4)))
+    if focus == "stronginc3":
+        return ("stronginc3",)
     u = rng.random()
     if u < 0.2:
         return ("hill", int(rng.integers(0, 1000)))
@@ -47,6 +68,9 @@ def run_case(c):
     rng = scenario.rng_for(c["seed"], "C15", c["i"])
     viol = []
     obs = {"histories": 1}
+    if c.get("focus"):
+        obs["family_focused_histories"] = 1
+        obs["focus_families"] = [c["focus"]]
     pool = []          # (key, instance)
     canon = {}         # (key, point bytes, fid) -> canonical value (fresh instance)
     points = {}        # key -> list of points used so far (to repeat them)
@@ -124,12 +148,12 @@ def run_case(c):
                 k0 = pool[int(rng.integers(len(pool)))][0]                   # another member of a live family (same dimension)
                 key = k0
                 for _ in range(20):
-                    k1 = random_key(rng)
+                    k1 = random_key(rng, c.get("focus"))
                     if k1[0] == k0[0] and (k0[0] != "gkls" or k1[1] == k0[1]) and (k0[0] not in ("rastrigin", "xsquared")):
                         key = k1
                         break
             else:
-                key = random_key(rng)
+                key = random_key(rng, c.get("focus"))
             inst = bench.construct(key)
             pool.append((key, inst))
             obs["constructions"] = obs.get("constructions", 0) + 1
@@ -226,6 +250,8 @@ def run_case(c):
 def finalize(obs, tier, stats):
     if len(obs.get("families", [])) < 8:
         return "not all eight families evaluated: %s" % obs.get("families"), {}
+    if len(obs.get("focus_families", [])) < 8:
+        return "family-focused histories did not cover all eight families: %s" % obs.get("focus_families"), {}
     if not obs.get("fresh_interpreter_values"):
         return "fresh-interpreter comparison never ran", {}
     missing = [k for k in ("cross_member_same_point", "how_immediate-repeat", "how_declared-point-first", "holder_reused", "how_repeat-family", "integer_typed_points", "how_lattice", "how_integer-point-first") if not obs.get(k)]
